@@ -85,8 +85,9 @@ async def infinite_watch(
                     operator_pause_waiter=operator_pause_waiter,
                 )
                 try:
-                    async for raw_event in stream:
-                        yield raw_event
+                    async with contextlib.aclosing(stream):
+                        async for raw_event in stream:
+                            yield raw_event
                 except errors.APITooManyRequestsError as ex:
                     # If it has escalated after all the retries, go back to trying anyway.
                     # This stream is not allowed to fail, unlike other regular requests.
@@ -276,17 +277,18 @@ async def watch_objs(
             timeout = contextlib.nullcontext(None)
         else:
             timeout = asyncio.timeout(settings.watching.inactivity_timeout)
-        async with timeout as timeout_cm:
-            async for raw_input in api.stream(
-                url=resource.get_url(namespace=namespace, params=params),
-                logger=logger,
-                settings=settings,
-                stopper=operator_pause_waiter,
-                timeout=aiohttp.ClientTimeout(
-                    total=settings.watching.client_timeout,
-                    sock_connect=connect_timeout,
-                ),
-            ):
+        stream = api.stream(
+            url=resource.get_url(namespace=namespace, params=params),
+            logger=logger,
+            settings=settings,
+            stopper=operator_pause_waiter,
+            timeout=aiohttp.ClientTimeout(
+                total=settings.watching.client_timeout,
+                sock_connect=connect_timeout,
+            ),
+        )
+        async with timeout as timeout_cm, contextlib.aclosing(stream):
+            async for raw_input in stream:
                 yield raw_input
                 if timeout_cm is not None:
                     now = asyncio.get_running_loop().time()
